@@ -11,17 +11,18 @@ import (
 // net/http's: the first Write implies 200, the header map is snapshotted at
 // WriteHeader, an informational or out-of-range status panics like net/http.
 type Recorder struct {
-	H            http.Header
-	Snapshot     http.Header
-	Status       int
-	WriteHeaders int
-	Body         bytes.Buffer
-	Writes       int
-	Flushes      []int // body length at each Flush
-	Lenient      bool  // do not panic on invalid status (record it)
-	InvalidCode  int
-	Hijacked     bool
-	HijackBuf    bytes.Buffer // what was written to the hijacked connection
+	H             http.Header
+	Snapshot      http.Header
+	Status        int
+	WriteHeaders  int
+	Body          bytes.Buffer
+	Writes        int
+	Flushes       []int // body length at each Flush
+	Lenient       bool  // do not panic on invalid status (record it)
+	InvalidCode   int
+	Hijacked      bool
+	HijackBuf     bytes.Buffer // what was written to the hijacked connection
+	Informational []int        // 1xx statuses sent before the final one
 }
 
 type hijackConn struct {
@@ -58,10 +59,16 @@ func (r *Recorder) WriteHeader(code int) {
 			panic("invalid WriteHeader code " + itoa(code))
 		}
 	}
-	r.WriteHeaders++
 	if r.Status != 0 {
+		r.WriteHeaders++
 		return // superfluous, ignored like net/http
 	}
+	if code >= 100 && code <= 199 && code != http.StatusSwitchingProtocols {
+		// informational response: sent at once, the final status is still to come (net/http semantics)
+		r.Informational = append(r.Informational, code)
+		return
+	}
+	r.WriteHeaders++
 	r.Status = code
 	r.Snapshot = r.H.Clone()
 }
